@@ -96,7 +96,7 @@ pub fn gen(r: &mut Rng) -> Value {
 }
 
 // (h_cyc / h_cmap: collections that contain their own handle, directly or through a second one)
-const HANDLES: [&str; 8] = ["${h_arr}", "${h_map}", "${h_set}", "${h_rel}", "handle:garbage", "${h_nested}", "${h_cyc}", "${h_cmap}"];
+const HANDLES: [&str; 9] = ["${h_arr}", "${h_map}", "${h_set}", "${h_rel}", "handle:garbage", "${h_nested}", "${h_cyc}", "${h_cmap}", "${h_outer}"];
 
 fn pool_cached() -> &'static Vec<String> {
     static POOL: std::sync::OnceLock<Vec<String>> = std::sync::OnceLock::new();
@@ -145,7 +145,7 @@ pub fn run(input: &Value) -> Option<Value> {
     let script = if let Some(t) = input["text"].as_str() {
         t.to_string()
     } else {
-        let mut s = String::from("h_arr = array a b c\nh_map = map\nmap_put ${h_map} k v\nh_set = set_new x y\nh_rel = array z\nrelease ${h_rel}\nh_nested = array ${h_arr} ${h_map}\nh_cyc = array 1\narray_push ${h_cyc} ${h_cyc}\nh_cmap = map\nh_cmap2 = map\nmap_put ${h_cmap} child ${h_cmap2}\nmap_put ${h_cmap2} parent ${h_cmap}\nv = set \"some value\"\n");
+        let mut s = String::from("h_arr = array a b c\nh_map = map\nmap_put ${h_map} k v\nh_set = set_new x y\nh_rel = array z\nrelease ${h_rel}\nh_nested = array ${h_arr} ${h_map}\nh_cyc = array 1\narray_push ${h_cyc} ${h_cyc}\nh_cmap = map\nh_cmap2 = map\nmap_put ${h_cmap} child ${h_cmap2}\nmap_put ${h_cmap2} parent ${h_cmap}\nh_outer = array first ${h_cmap2} ${h_cyc}\nv = set \"some value\"\n");
         for l in input["lines"].as_array()? {
             let cmd = l["name"].as_str()?;
             let args: Vec<String> = l["args"].as_array()?.iter().map(|a| quote(a.as_str().unwrap_or(""))).collect();
